@@ -929,3 +929,32 @@ example : routeFaults gK23 [0, 1, 2, 3, 4, 5] = [.noTrainData 2] := by decide
 /-- a deep chain without shortcuts has no fault -/
 example : routeFaults demoG [0, 1, 2, 3] = [] := by decide
 
+
+/-- the forwarded operands of the routing model are exactly the senders the relations of the previous stage name for
+    this consumer: `delivered` reads `_get_required_nodes` correctly -/
+theorem C06_ext_iff_link (g : SG) (nodes prevSub curSub : List Nat) (c p : Nat)
+    (hc : c ∈ curSub) (hcn : c ∈ nodes) (hp : p ∈ g.parents c) :
+    (p ∈ prevSub ∧ p ∉ curSub) ↔ ∃ cs, (p, cs) ∈ getLinks g nodes prevSub curSub ∧ c ∈ cs := by
+  have hcmem : c ∈ childrenOf g nodes p := by simp [childrenOf, hcn, hp]
+  constructor
+  · rintro ⟨h1, h2⟩
+    refine ⟨(childrenOf g nodes p).filter (fun c => curSub.contains c), ?_, ?_⟩
+    · simp only [getLinks, List.mem_filterMap]
+      refine ⟨p, h1, ?_⟩
+      simp only [List.contains_eq_mem, h2, decide_false, Bool.false_eq_true, if_false]
+      have hne : ((childrenOf g nodes p).filter (fun c => decide (c ∈ curSub))).isEmpty = false := by
+        rw [List.isEmpty_eq_false_iff_exists_mem]
+        exact ⟨c, by simp [hcmem, hc]⟩
+      simp [hne]
+    · simp [hcmem, hc]
+  · rintro ⟨cs, hmem, _⟩
+    simp only [getLinks, List.mem_filterMap] at hmem
+    obtain ⟨n, hn, hval⟩ := hmem
+    by_cases hnx : n ∈ curSub
+    · simp [hnx] at hval
+    · simp only [List.contains_eq_mem, hnx, decide_false, Bool.false_eq_true, if_false] at hval
+      split at hval
+      · simp at hval
+      · simp only [Option.some.injEq, Prod.mk.injEq] at hval
+        obtain ⟨rfl, _⟩ := hval
+        exact ⟨hn, hnx⟩
